@@ -1026,6 +1026,8 @@ func (x *svcEnv) step(ws []string) (out string) {
 			x.wedged = true
 			return "svc=err:apply-blocked emb=- (a replicated entry was not applied within 5 s: the applier waits for something a client holds)"
 		}
+	case "scanrace":
+		return x.scanRace(ws[1:])
 	case "readonly":
 		x.a.SetReadOnly(ws[1] == "on")
 		x.b.SetReadOnly(ws[1] == "on")
@@ -1041,6 +1043,80 @@ func (x *svcEnv) step(ws []string) (out string) {
 		return "svc=" + errOf(e1) + " emb=" + errOf(e2)
 	}
 	return "bad-op"
+}
+
+// scanRace: `scanrace <prefix> <batch ops…>` - a streaming Scan over <prefix> whose client stops reading after the first pair,
+// and a BatchWrite that rewrites the scanned keys sent WHILE the scan is open. The embedded scan runs inside a read-only
+// transaction, so no commit can fall between two of its pairs: the scan shows the state before the batch (all old) - never a mix.
+// The batch is applied afterwards (twin: embedded batch).
+func (x *svcEnv) scanRace(ws []string) string {
+	if len(ws) < 4 || x.wouldBlock('w') {
+		return "bad-op"
+	}
+	ops, raw := parseBatchOps(ws[1:])
+	newVal := map[string][]byte{}
+	for _, o := range ops {
+		newVal[string(o.Key)] = o.Value
+	}
+	ctx, cancel := x.ctx()
+	defer cancel()
+	st, err := x.cl.Scan(ctx, &pb.ScanRequest{Prefix: bx(ws[0])})
+	if err != nil {
+		return "scanrace err:" + errOf(err)
+	}
+	var ps [][2][]byte
+	m, err := st.Recv()
+	if err != nil && err != io.EOF {
+		return "scanrace err:first-" + errOf(err)
+	}
+	empty := err == io.EOF // nothing under the prefix (a shrunk script): the batch alone
+	if !empty {
+		ps = append(ps, [2][]byte{m.Key, m.Value})
+	}
+	done := make(chan error, 1)
+	go func() {
+		_, err := x.cl.BatchWrite(ctx, &pb.BatchWriteRequest{Operations: ops})
+		done <- err
+	}()
+	time.Sleep(150 * time.Millisecond) // the scan is open, its client is slow; the batch is waiting (or, wrongly, being applied)
+	for !empty {
+		m, err := st.Recv()
+		if err != nil {
+			if err != io.EOF {
+				return "scanrace err:" + errOf(err)
+			}
+			break
+		}
+		ps = append(ps, [2][]byte{m.Key, m.Value})
+	}
+	var berr error
+	select {
+	case berr = <-done:
+	case <-time.After(patience(20 * time.Second)):
+		x.wedged = true
+		return "scanrace blocked-batch"
+	}
+	if berr != nil {
+		return "scanrace err:batch-" + errOf(berr)
+	}
+	x.twinBatch(raw)
+	svcQuiesce(x.a)
+	svcQuiesce(x.b)
+	nOld, nNew := 0, 0
+	for _, p := range ps {
+		if nv, ok := newVal[string(p[0])]; ok && bytes.Equal(nv, p[1]) {
+			nNew++
+		} else {
+			nOld++
+		}
+	}
+	switch {
+	case nNew == 0:
+		return "scanrace atomic-old"
+	case nOld == 0:
+		return "scanrace atomic-new"
+	}
+	return fmt.Sprintf("scanrace mixed old=%d new=%d (a commit fell between two pairs of one scan)", nOld, nNew)
 }
 
 func runService(r *runner) {
@@ -1424,6 +1500,26 @@ func (s *svcGen) replicaStep() {
 	}
 }
 
+// raceCase: see svcEnv.scanRace
+func (s *svcGen) raceCase() {
+	g := s.g
+	n := g.pick(300, 500, 800)
+	vlen := g.pick(700, 1024, 2000)
+	mk := func(b int) []string {
+		parts := []string{}
+		for i := 0; i < n; i++ {
+			parts = append(parts, "p", hx([]byte(fmt.Sprintf("zr%04d", i))), fmt.Sprintf("*%d:%02x", vlen, b))
+		}
+		return parts
+	}
+	s.emit(append([]string{"rpc", "BatchWrite", strconv.Itoa(n)}, mk(0x6f)...)...)
+	s.emit("rpc", "Get", hx([]byte("zr0001")))
+	s.emit(append([]string{"scanrace", hx([]byte("zr"))}, mk(0x6e)...)...)
+	s.emit("rpc", "Get", hx([]byte("zr0001")))
+	s.emit("rpc", "Get", hx([]byte(fmt.Sprintf("zr%04d", n-1))))
+	s.emit("dump")
+}
+
 func (s *svcGen) limitsCase(big, mid bool) {
 	g := s.g
 	kk := func(n int) string {
@@ -1468,12 +1564,19 @@ func (s *svcGen) limitsCase(big, mid bool) {
 		s.emit("rpc", "Put", hx([]byte("mid")), fmt.Sprintf("*%d:%02x", n, 0x61+g.intn(3)))
 		s.emit("rpc", "Get", hx([]byte("mid")))
 		s.emit("rpc", "Delete", hx([]byte("mid")))
+		// a batch whose message is larger than any single value may be (3 x 4 MB): it reaches the handler like any other batch
+		// (where the log refuses the commit, for the service and the embedded API alike) - the transport must not be what refuses it
+		s.emit("rpc", "BatchWrite", "3", "p", hx([]byte("m1")), fmt.Sprintf("*%d:61", 4*1024*1024), "p", hx([]byte("m2")), fmt.Sprintf("*%d:62", 4*1024*1024),
+			"p", hx([]byte("m3")), fmt.Sprintf("*%d:63", 4*1024*1024))
+		s.emit("rpc", "Get", hx([]byte("m1")))
 	}
 	if big {
 		for _, n := range []int{svcMaxValue, svcMaxValue + 1} {
 			s.emit("rpc", "Put", hx([]byte("big")), fmt.Sprintf("*%d:%02x", n, 0x41+g.intn(3)))
 			s.emit("rpc", "Get", hx([]byte("big")))
 		}
+		// the largest single request inside the documented limits: longest key with the largest value
+		s.emit("rpc", "Put", kk(svcMaxKey), fmt.Sprintf("*%d:44", svcMaxValue))
 		s.emit("rpc", "BatchWrite", "2", "p", hx([]byte("c1")), "01", "p", hx([]byte("c2")), fmt.Sprintf("*%d:42", svcMaxValue+1))
 		s.emit("rpc", "Get", hx([]byte("c1")))
 	}
@@ -1531,6 +1634,12 @@ func genServiceCase(g *gen, c int, tier string, w *bufio.Writer, flavour int) {
 		s.emit("open", "mode="+g.pickStr("none", "none", "standalone", "primary"), "ro=0", fmt.Sprintf("mem=%d", mem))
 		for i, n := 0, 15+g.intn(45); i < n; i++ {
 			s.generalStep()
+		}
+		if g.chance(1, 6) && !s.closed { // a scan that is open while a batch arrives
+			for _, id := range append([]string{}, s.open...) {
+				s.finish(id, true)
+			}
+			s.raceCase()
 		}
 	case flavour < 78: // replica: read-only engine + replicated apply
 		fmt.Fprintf(w, "# case %d replica\n", c)
